@@ -24,6 +24,7 @@ type Clause struct {
 	Src   string
 	File  string
 	Line  int
+	By    string // axiom[by:L]: consequence (by induction) of lemma L; withheld while L itself is checked
 }
 
 type LoopSpec struct {
@@ -565,10 +566,16 @@ func (sp *Specs) loadContractFile(path, pkg string, assumed bool) error {
 			pd.Body = e
 			sp.Pures[pd.Name] = pd
 		case "axiom":
+			by := ""
+			if t := strings.Trim(wtag, "[]"); strings.HasPrefix(t, "by:") {
+				by = strings.TrimSpace(t[3:])
+				wtag = ""
+			}
 			c, err := mkClause(wtag, rest, l.line)
 			if err != nil {
 				return err
 			}
+			c.By = by
 			c.Label = curPkg // package context for name resolution
 			sp.Axioms = append(sp.Axioms, c)
 		case "globalinv":
